@@ -147,16 +147,19 @@ def prop_b(case):
                 # rounding noise is erratic: moving the heavy scale by a relative 1e-7 changes it by O(1), whereas a
                 # systematic non-decoupling does not notice
                 near = []
-                for f in (1 - 1e-7, 1 + 1e-7):
+                for f in (1 - 3e-7, 1 - 1e-7, 1 + 1e-7, 1 + 3e-7):
                     M = MS[k] * f
                     pp = {"basis": "gauge", "lambda": lam, "tb": tb, "m122": M * M * tb / (1 + tb * tb), "yuk": case["yuk"],
                           "sm": copy.deepcopy(case["sm"]), "running": False, "force": False}
                     pp["sm"]["mh"] = rows[k]["sm.mh"]
                     rr = run(pp)
                     near.append(rr["amu2LB"] if isinstance(rr, vx.Reply) and "exc" not in rr else float("nan"))
-                vals3 = [near[0], rows[k]["amu2LB"], near[1]]
+                vals3 = [near[0], near[1], rows[k]["amu2LB"], near[2], near[3]]
                 spread = max(vals3) - min(vals3)
-                item["erratic"] = bool(spread > 0.1 * max(abs(v) for v in vals3)) if all(v == v for v in vals3) else True
+                # a smooth function of M changes by ~1e-6 relative over these five points; rounding noise of the
+                # cancelling terms by percents (9.9 % and 2.4 % between neighbours in the case that a 10 % threshold
+                # on three points misread as systematic: quick tier, seed 0 of the sweep)
+                item["erratic"] = bool(spread > 1e-3 * max(abs(v) for v in vals3)) if all(v == v for v in vals3) else True
                 item["neighbours"] = vals3
             bad.append(item)
     if bad:
